@@ -315,7 +315,11 @@ def build_multi(md, solver='ipopt'):
         if md.get('clone'):
             d1 = md['stages'][0]
             tb = Built(); tb.ocp = ocp
-            tmpl = Stage(t0=horizon(d1['t0']), T=horizon(d1['T']))
+            # the template has a horizon of its own (never the one of a clone): every clone overrides both t0 and T, also with 0
+            def own(h, v):
+                from rockit import FreeTime as _FT
+                return _FT(v) if isinstance(h, _FT) else v
+            tmpl = Stage(t0=own(horizon(d1['t0']), 7.5), T=own(horizon(d1['T']), 3.25))
             fill(tb, tmpl, d1)
             B.template = tmpl; B.template_built = tb
             for si_, d in enumerate(md['stages']):
